@@ -191,6 +191,8 @@ class Acc:
         case_j = jsonable(case)
         if LOG_ON and isinstance(case_j, dict):
             case_j = dict(case_j, _debug_logging=True)      # part of the case: replay switches it on again
+        if WARN_ERR and isinstance(case_j, dict):
+            case_j = dict(case_j, _warnings_as_errors=True)
         size = len(json.dumps(case_j))
         old = self.viol.get(key)
         if old is None or size < old["size"]:
@@ -239,6 +241,8 @@ class Acc:
 # ---------------------------------------------------------------------------------------------
 class Ctx:
     def __init__(self, prop: str, tier: str, seed: int):
+        global CURRENT_PROP
+        CURRENT_PROP = prop
         self.prop = prop
         self.tier = tier
         self.seed = seed
@@ -285,10 +289,45 @@ class _Caller:
         return _call(self.fn, job)
 
 
+CURRENT_PROP = None
+
+
+def _library_origin(ex):
+    """'file.py:function' of the library frame that raised `ex` (directly, or through the standard library it called), or None
+    when the exception was raised by harness code (checks, vlib, simulator callbacks invoked by the library)."""
+    tb = ex.__traceback__
+    frames = []
+    while tb is not None:
+        frames.append(tb.tb_frame)
+        tb = tb.tb_next
+    lib = os.path.join(os.path.abspath(REPO), "goodwe") + os.sep
+    for fr in reversed(frames):
+        fname = os.path.abspath(fr.f_code.co_filename)
+        if fname.startswith(lib):
+            return "%s:%s" % (os.path.basename(fname), fr.f_code.co_name)
+        if fname.startswith(VERIF + os.sep) or "hypothesis" in fname:
+            return None
+    return None
+
+
+def replay_job(mod, case):
+    """Replay of a case recorded by the fallback above: run the job again (same index, hence same environment dimension)."""
+    fn = getattr(mod, case["_fn"])
+    job = case["_job"]
+    return _call(fn, (case.get("_index", 0), tuple(job) if isinstance(job, list) else job))
+
+
 def _call(fn, indexed_job):
     index, job = indexed_job
+    import warnings
+    wctx = warnings.catch_warnings()
+    wctx.__enter__()
     try:
         debug_logging(job_logging(index))
+        if job_warnings_as_errors(index):
+            # the application runs with warnings turned into errors (python -W error, pytest filterwarnings=error); restricted to
+            # warnings attributed to the library's own modules so that harness / Hypothesis warnings never matter
+            warnings_as_errors(True)
         # every job starts from the import-time state of the library's shared (class-level) definition objects: which worker
         # process gets which job depends on timing, and results must not
         if "goodwe" in sys.modules:
@@ -297,13 +336,30 @@ def _call(fn, indexed_job):
         res = fn(job)
     except HarnessError:
         raise
-    except BaseException as ex:  # a crash of the harness code itself inside a worker
+    except Exception as ex:
+        where = _library_origin(ex)
+        if where is None:   # a crash of the harness code itself inside a worker
+            raise HarnessError("worker crashed on job %r: %s\n%s" % (job, ex, traceback.format_exc()))
+        # an exception RAISED INSIDE THE LIBRARY (not in the harness, not in a simulator callback) that the check did not expect from
+        # the call it made: whatever the property, the case it was exploring did not get the documented outcome.  The case is the
+        # job itself; the replay runs the job again.
+        res = Acc()
+        res.case()
+        res.fail("%s|exception-escaped-from-library|%s|%s" % (CURRENT_PROP or "C??", type(ex).__name__, where),
+                 "%r raised inside the library (%s) escaped from the call under test in %s%s" % (
+                     ex, where, getattr(fn, "__name__", "job"), " with debug logging on" if job_logging(index) else ""),
+                 {"_job": job, "_fn": getattr(fn, "__name__", None), "_index": index})
+    except BaseException as ex:
         raise HarnessError("worker crashed on job %r: %s\n%s" % (job, ex, traceback.format_exc()))
     finally:
         debug_logging(False)
+        warnings_as_errors(False)
+        wctx.__exit__(None, None, None)
     _linecov_dump()
     if job_logging(index) and isinstance(res, Acc):
         res.cls("jobs-with-debug-logging")
+    if job_warnings_as_errors(index) and isinstance(res, Acc):
+        res.cls("jobs-with-warnings-as-errors")
     return res.export() if isinstance(res, Acc) else res
 
 
@@ -415,7 +471,8 @@ def finish(ctx: Ctx, *, level: str, rule: str, assumptions, exhaustive: bool | N
         "property_id": ctx.prop, "tier": ctx.tier, "seed": ctx.seed, "level": level,
         "coverage": coverage, "assumptions": list(assumptions) + [
             "environment dimension: one job in three of every sharded engine runs with the 'goodwe' logger at DEBUG and a handler that "
-            "formats every record (class jobs-with-debug-logging); a violation found there carries _debug_logging in its replay case"],
+            "formats every record (class jobs-with-debug-logging); a violation found there carries _debug_logging in its replay case; "
+            "another third runs with warnings attributed to the library's modules turned into errors (python -W error; class jobs-with-warnings-as-errors)"],
         "wall_s": round(wall, 2),
         "violations": n_viol,
     }
@@ -468,14 +525,47 @@ def job_logging(index: int) -> bool:
     return ((index + 1) * 2654435761 >> 9) % 3 == 0
 
 
+WARN_ERR = False
+
+
+def warnings_as_errors(on: bool):
+    """Call inside a warnings.catch_warnings() block: the filter list is restored by that block."""
+    import warnings
+    global WARN_ERR
+    WARN_ERR = bool(on)
+    if on:
+        warnings.filterwarnings("error", module=r"goodwe(\.|$)")
+
+
+def job_warnings_as_errors(index: int) -> bool:
+    """Another third of the jobs runs with warnings attributed to the library turned into errors (python -W error)."""
+    return ((index + 1) * 2654435761 >> 9) % 3 == 1
+
+
+_SYNC_LOOP = {}
+
+
 def run_sync(coro):
-    """Drive a coroutine that never really suspends (direct simulator path) without an event loop."""
+    """Drive a coroutine that never really suspends (direct simulator path).  The library may legitimately use asyncio
+    facilities that need a running loop without suspending (get_running_loop(), create_future(), call_soon()): a real, never
+    started loop object is installed as the running loop for the duration of the call."""
+    import asyncio
+    loop = _SYNC_LOOP.get(os.getpid())
+    if loop is None:
+        loop = _SYNC_LOOP[os.getpid()] = asyncio.new_event_loop()
+    nested = asyncio._get_running_loop() is not None
+    if not nested:
+        asyncio._set_running_loop(loop)
     try:
-        coro.send(None)
-    except StopIteration as st:
-        return st.value
-    coro.close()
-    raise HarnessError("coroutine suspended on the direct path")
+        try:
+            coro.send(None)
+        except StopIteration as st:
+            return st.value
+        coro.close()
+        raise HarnessError("coroutine suspended on the direct path")
+    finally:
+        if not nested:
+            asyncio._set_running_loop(None)
 
 
 # ---------------------------------------------------------------------------------------------
